@@ -47,6 +47,23 @@ def groups : List HRange → List (List HRange)
     | [] => [[r]]
     | g :: gs => if joins r g.head? then (r :: g) :: gs else [r] :: g :: gs
 
+/-- inside a group every record may share a bracket with its successor -/
+def chained : List HRange → Bool
+  | a :: b :: t => joins a (some b) && chained (b :: t)
+  | _ => true
+
+/-- across a group boundary the two neighbours may NOT share a bracket (the groups are maximal) -/
+def separated : List (List HRange) → Bool
+  | g1 :: g2 :: t =>
+    (match g1.getLast?, g2.head? with
+     | some a, some b => !joins a (some b)
+     | _, _ => false) && separated (g2 :: t)
+  | _ => true
+
+/-- `gs` is THE partition of `rs` into maximal runs of adjacent records that may share a bracket -/
+def MaximalRuns (rs : List HRange) (gs : List (List HRange)) : Prop :=
+  gs.flatten = rs ∧ (∀ g ∈ gs, g ≠ [] ∧ chained g = true) ∧ separated gs = true
+
 /-- text of one group -/
 def groupText : List HRange → Str
   | [] => []
